@@ -32,9 +32,12 @@ META = dict(
                "when a newer same-name/overlapping request or Stop cancels it; a tracking refusal no longer skips "
                "finalize); the theorem asis_two_instances_execute_in_one_tick shows the unchanged code violates the "
                "property. Trusted: Lean kernel, the harness, the model's abstractions (UOD exec functions are "
-               "parameters 'completes at iteration n / raises at iteration k'; UOD requests are interpreter-sourced; "
-               "argument parsing succeeds; one lifecycle command in flight). The interpreter's scheduling is covered by "
-               "the engine-level oracle, not by the theorems.",
+               "parameters 'completes at iteration n / raises at iteration k'; whether the argument parser accepts a "
+               "request's arguments is a flag of the request; UOD requests are interpreter-sourced; one lifecycle "
+               "command in flight). The interpreter's scheduling and UOD commands from the user's command buttons are "
+               "covered by the engine-level oracle, not by the theorems: a user command between the two phases of "
+               "Stop/Restart is initialised and never finalized (known findings *:started-while-stopping; repair "
+               "proposed in fixes/C10-dispose-instances-on-stop.diff).",
     technique="Lean 4 proof (inductive invariant over ops; loop invariants over the executing snapshot) + differential "
               "correspondence + engine-level property oracle",
 )
@@ -55,7 +58,7 @@ def run(ctx: Check) -> int:
     ctx.rule = ("Op streams for the command manager: UOD configuration (4 commands, durations 0-6 iterations, optional "
                 "failing iteration, 0-3 overlap lists incl. duplicated pairs) + after Start a random sequence of UOD "
                 "requests, ticks, cancel/force by request id (known, unknown, ended), Simulate, pause flag on/off, Stop/Restart/Start; "
-                "all sequences of length <= 3/4 over a 9-op alphabet; a malformed stream (requests that are invalid in "
+                "all sequences of length <= 3/4 over a 10-op alphabet (incl. a request with rejected arguments); a malformed stream (requests that are invalid in "
                 "the state they arrive in). Non-trivial = a tick in which one instance is finalized while another "
                 "executes, or a run ends. Engine level: generated methods (UOD commands from the main sequence and "
                 "Watch/Alarm bodies, Wait, Mark, Block) with injected snippets, cancel requests on run-log items and "
@@ -63,7 +66,7 @@ def run(ctx: Check) -> int:
     streams(ctx, ["c11", "c11", "mixed"], ctx.n(500, 12000), ctx.n(3, 4), ctx.n(60, 1500), [oracle_c11], "cmdmgr")
     engine_monitor(ctx, "c11", ctx.n(500, 12000), engine_oracle)
     ctx.exhaustive = False
-    ctx.extra["exhaustive_scope"] = f"all op sequences of length {ctx.n(3, 4)} over 9 ops after Start (one UOD configuration)"
+    ctx.extra["exhaustive_scope"] = f"all op sequences of length {ctx.n(3, 4)} over 10 ops after Start (one UOD configuration)"
     ctx.extra["fix"] = FIX
     ctx.assumptions = ["UOD command requests come from the interpreter (method or injected code), one node per request",
                        "command arguments parse", "at most one of Start/Stop/Restart in flight",
